@@ -1,1 +1,20 @@
-fn main() { let _ = vcommon::Ctx::from_args(); }
+mod c34;
+mod c36;
+mod c37;
+mod c45;
+mod util;
+
+fn main() {
+    let ctx = vcommon::Ctx::from_args();
+    ctx.watchdog(ctx.pick(900, 7200));
+    match ctx.prop.as_str() {
+        "C34" => c34::run(&ctx),
+        "C36" => c36::run(&ctx),
+        "C37" => c37::run(&ctx),
+        "C45" => c45::run(&ctx),
+        p => {
+            println!("INCONCLUSIVE vh-cry does not serve {p}");
+            std::process::exit(2);
+        }
+    }
+}
